@@ -145,9 +145,9 @@ impl SignatureInfo {
         Self {
             begin_mpq_data: archive_start,
             begin_exclude: signature_file_pos,
-            end_exclude: signature_file_pos + signature_file_size,
-            end_mpq_data: archive_start + archive_size,
-            end_of_file: archive_start + archive_size, // For weak signatures, no data after archive
+            end_exclude: signature_file_pos.saturating_add(signature_file_size),
+            end_mpq_data: archive_start.saturating_add(archive_size),
+            end_of_file: archive_start.saturating_add(archive_size), // For weak signatures, no data after archive
             signature: signature_data,
             signature_size,
             signature_types: 1, // SIGNATURE_TYPE_WEAK = 1
